@@ -611,11 +611,23 @@ func (ex *Exec) step(st *State, fr *Frame, b *ssa.BasicBlock, idx int, prev *ssa
 				ex.runBlock(st, fr, fb, b, k)
 				return
 			}
+			// a condition already decided on this path (the same term was
+			// branched on before) has one feasible successor only
+			if truth, ok := st.branchFact(c); ok {
+				if truth {
+					ex.runBlock(st, fr, tb, b, k)
+				} else {
+					ex.runBlock(st, fr, fb, b, k)
+				}
+				return
+			}
 			st2 := st.clone()
 			st.assume(c)
+			st.recordBranch(c, true)
 			st.path = append(st.path, fmt.Sprintf("b%d:T", b.Index))
 			ex.runBlock(st, fr, tb, b, k)
 			st2.assume(Not(c))
+			st2.recordBranch(c, false)
 			st2.path = append(st2.path, fmt.Sprintf("b%d:F", b.Index))
 			ex.runBlock(st2, fr, fb, b, k)
 			return
